@@ -66,11 +66,16 @@ TraceInit ==
             mdl |-> [sizes |-> [h \in H |-> 0], refs |-> [h \in H |-> 1],
                      imm |-> [h \in H |-> FALSE], nc |-> [h \in H |-> FALSE]]]
 
+\* diagnostics: with DEBUGAT=<k> in the environment event k is accepted without
+\* comparison and the invariant DebugStop then shows the model's own answer
+DebugAt == IF "DEBUGAT" \in DOMAIN IOEnv THEN atoi(IOEnv.DEBUGAT) ELSE 0
+DebugStop == DebugAt = 0 \/ l # DebugAt + 1
+
 TraceNext ==
   /\ l <= Len(TraceLog)
   /\ l' = l + 1
   /\ LET ev == TraceLog[l] IN
-       Step(ev) /\ Matches(ev)
+       Step(ev) /\ (Matches(ev) \/ l = DebugAt)
 
 TraceSpec == TraceInit /\ [][TraceNext]_<<vars, l>>
 
